@@ -306,6 +306,25 @@ func c13ExecOn(sp *saml2.SAMLServiceProvider, expectedKey string, c c13Case) (ke
 				}
 			}
 		})
+		// the single-logout variant publishes the same signing certificate
+		if mp == "" && md != "" {
+			var md2 string
+			mp = guard(func() {
+				m, e := sp.MetadataWithSLO(24)
+				if e != nil {
+					md2 = "error: " + e.Error()
+					return
+				}
+				for _, kd := range m.SPSSODescriptor.KeyDescriptors {
+					if kd.Use == "signing" && len(kd.KeyInfo.X509Data.X509Certificates) > 0 {
+						md2 = kd.KeyInfo.X509Data.X509Certificates[0].Data
+					}
+				}
+			})
+			if mp == "" && md2 != md {
+				keys = append(keys, "C13/metadata/single-logout-variant-publishes-another-signing-key/keys="+k.String())
+			}
+		}
 		switch {
 		case mp != "":
 			keys = append(keys, "C13/metadata/panic")
